@@ -24,7 +24,7 @@ def run(ctx, cases_override=None, confirm_pass=False):
     mc_runs = []
     if cases_override is None:
         # ---- MC: the five loops + error classification |= Doc_C15, exhaustive over the whole table (11^3 x 5 x 2 cases)
-        mc = ctx.tlc("Failover", "c15_mc.cfg", files={"c15_mc.cfg": CFG % (3, "TRUE", "Inv_C15 Inv_LoopAgrees")},
+        mc = ctx.tlc("Failover", "c15_mc.cfg", files={"c15_mc.cfg": CFG % (3, "TRUE", "Inv_C15 Inv_LoopAgrees Inv_Disabled")},
                      workers=8, timeout=1500, tag="mc", allow_violation=True)
         mc_runs = [mc]
         if mc["invariant_violated"]:
@@ -45,9 +45,9 @@ def run(ctx, cases_override=None, confirm_pass=False):
     tpath = ctx.path("c15_trace.ndjson")
     ctx.vh("exec-c15", cpath, tpath, env={"C15_PAR": "64"}, timeout=3000)
     trace = read_ndjson(tpath)
-    bad = [r for r in trace if r["b"]["cfgerr"] or not r["b"]["ran"]]
+    bad = [r for r in trace if r["b"]["cfgerr"]]
     if bad:
-        raise MachineryError("phase B did not run the intended check: %s" % json.dumps(bad[0]["b"])[:500])
+        raise MachineryError("phase B could not load its configuration: %s" % json.dumps(bad[0]["b"])[:500])
     # ---- JUDGE
     j = ctx.tlc("FailoverTrace", "FailoverTrace.cfg", workers=1, files={"c15_trace.ndjson": tpath}, timeout=3000, heap="6g", tag="judge")
     done = prints(j, "DONE")
@@ -67,7 +67,7 @@ def run(ctx, cases_override=None, confirm_pass=False):
     # ---- confirmation: a violation that is not a known finding, and any drift, must reproduce when the case is
     # executed again (on a busy machine a request can die on a local socket or overrun the client deadline,
     # which looks like an unavailable upstream)
-    ckey = lambda c: (tuple(c["modes"]), c["ep"], c["required"])
+    ckey = lambda c: (tuple(c["modes"]), c["ep"], c["required"], c.get("inc", "none"), c.get("exc", "none"))
     dcases = {cid: by_id[cid] for cid, _ in prints(j, "DRIFT") if cid in by_id}
     obs = {(ckey(v["case"]), v["sig"]) for v in viols} | {(ckey(c), "drift") for c in dcases.values()}
     if confirm_pass:
@@ -95,11 +95,14 @@ def run(ctx, cases_override=None, confirm_pass=False):
     cov = {
         "evaluations": 2 * len(trace),
         "distinct_nontrivial": len({(tuple(c["modes"]), c["ep"], c["required"]) for c in nontrivial}),
+        "routing_cases": sum(1 for c in cases if (c.get("inc", "none"), c.get("exc", "none")) != ("none", "none")),
+        "second_calls": sum(1 for r in trace if r["a"]["counts2"][0] >= 0),
+        "disabled_check_records": sum(1 for r in trace if r["b"]["disabled"]),
         "rule": "TLC enumerates every assignment of the 11 fault modes to 3 upstreams x 5 endpoints x required "
                 + ("(full table)" if thorough else "(at most two faulty upstreams, at most one timeout)")
                 + "; each case is run twice on the real code (direct FailoverGroup call, online check through the lint pipeline); "
                   "non-trivial = at least one upstream is not healthy",
-        "samples": [{"case": {k: r[k] for k in ("modes", "ep", "required")}, "a": r["a"], "b": {k: r["b"][k] for k in ("counts", "problems", "check")}}
+        "samples": [{"case": {k: r[k] for k in ("modes", "ep", "required", "inc", "exc")}, "a": r["a"], "b": {k: r["b"][k] for k in ("counts", "problems", "check", "disabled")}}
                     for r in trace[len(trace) // 3: len(trace) // 3 + 2]],
         "exhaustive": bool(thorough and cases_override is None),
         "cases": len(cases), "failed_over_cases": contacted2,
@@ -118,10 +121,10 @@ def run(ctx, cases_override=None, confirm_pass=False):
 
 
 def confirm(ctx, cases):
-    return run(ctx, cases_override=[{k: c[k] for k in ("modes", "ep", "required")} for c in cases], confirm_pass=True)
+    return run(ctx, cases_override=[{k: c.get(k, "none") for k in ("modes", "ep", "required", "inc", "exc")} for c in cases], confirm_pass=True)
 
 
 def replay(ctx, path):
     v = json.load(open(path))
-    c = {k: v["case"][k] for k in ("modes", "ep", "required")}
+    c = {k: v["case"].get(k, "none") for k in ("modes", "ep", "required", "inc", "exc")}
     return run(ctx, cases_override=[c])
